@@ -317,6 +317,14 @@ class C05(Profile):
             return all(self._refs_exist(world, i) for i in x)
         return True
 
+    def _complex_record(self, world, op):
+        for a in list(op.get("args", [])) + list(op.get("kwargs", {}).values()):
+            if isinstance(a, dict) and "vals" in a and a["vals"] in world.objs:
+                v = world.objs[a["vals"]].values
+                if isinstance(v, np.ndarray) and v.dtype.kind == "c":
+                    return True
+        return False
+
     def _exists(self, world, op):
         k = op["op"]
         if k == "buf":
@@ -329,6 +337,11 @@ class C05(Profile):
             if op["p"] not in world.objs:
                 return False
         if k == "mut" and "other" in op and op["other"] not in world.objs:
+            return False
+        if k == "call" and self._complex_record(world, op):
+            # C05 quantifies over real records (float and integer dtype, lists and arrays).  fas2signal gives birth to
+            # objects with complex values; handing those to an array function is outside the property (and
+            # stockwell.transform_w_scipy_fft does overwrite a complex input), so such a call is a skipped no-op.
             return False
         return self._refs_exist(world, {a: b for a, b in op.items() if a in ("src", "a", "kw", "values", "args", "kwargs")})
 
